@@ -5,21 +5,11 @@ from pathlib import Path
 V = Path(__file__).resolve().parent.parent
 PROPS = [json.loads(l) for l in (V / "properties.jsonl").read_text().splitlines() if l.strip()]
 
-# id -> (technique, level text, level note, design ref)
-CHECKS = {
-    "C05": (
-        "Lean 4 theorems about a loop-for-loop model of rle.py/_rle.pyx + differential correspondence (model vs rle.py vs emulated _rle.pyx)",
-        "Machine-checked proof (Lean 4 kernel) for every input of: encoder output expands to the input under an independent "
-        "PackBits decoder, round trip through the library decoder, no 0x80 header, decoder returns exactly `size` bytes or "
-        "ValueError, Cython decoder never touches memory out of bounds, both implementations agree. The model is tied to the "
-        "source on every run: MAX_LEN is regenerated from both files and the model is executed against rle.py and an emulation "
-        "of the current _rle.pyx on exhaustive small domains.",
-        "Trusted: Lean kernel (axioms propext/Classical.choice/Quot.sound only), the transliteration in Model/Rle.lean (checked by "
-        "correspondence, not proved), harness/pyx_emul.py (C semantics of the .pyx; Cython is not installed), the PackBits spec "
-        "as transcribed. The prebuilt .so is not exercised once _rle.pyx differs from the text it was built from.",
-        "DESIGN.md section 5, C05",
-    ),
-}
+# harness/manifest.d/Cxx.json: {"technique":…, "level_text":…, "level_note":…, "design_ref":…}
+CHECKS = {}
+for f in sorted((V / "harness" / "manifest.d").glob("C*.json")):
+    d = json.loads(f.read_text())
+    CHECKS[f.stem] = (d["technique"], d["level_text"], d["level_note"], d.get("design_ref", "DESIGN.md section 5, " + f.stem))
 
 NOT_YET = "not claimed yet: the model and check for this property are not built at this commit (see DESIGN.md section 9 for the staging order)"
 
@@ -63,6 +53,15 @@ def main():
         "not_applicable": [{"property_id": p["id"], "reason": NOT_YET} for p in PROPS if p["id"] not in CHECKS],
     }
     (V / "MANIFEST.json").write_text(json.dumps(m, indent=1) + "\n")
+    # known_findings.json is assembled from findings.d/Cxx.json (one list of entries per property)
+    fs = []
+    for f in sorted((V / "findings.d").glob("C*.json")):
+        fs += json.loads(f.read_text())
+    (V / "known_findings.json").write_text(json.dumps({
+        "comment": "Genuine defects of psd-tools found by the checks (assembled from findings.d/ by harness/mkmanifest.py; never written at "
+                   "run time). status=known: still present, reported as KNOWN-FINDING (exit 0). status=fixed: repaired by the named "
+                   "commit in /repo; a fixed entry suppresses nothing.",
+        "findings": fs}, indent=1) + "\n")
 
 
 if __name__ == "__main__":
